@@ -292,7 +292,7 @@ def gen_params():
     def micros(x):
         return int(round(Fraction(str(x)) * 1_000_000))
 
-    out = [HEADER, "Open Scope Z_scope.\n"]
+    out = [HEADER, "Local Open Scope Z_scope.\n"]
     P = C.YncaProtocol
     out.append(f"Definition p_spacing : Z := {micros(P.COMMAND_SPACING)}.      (* COMMAND_SPACING = {P.COMMAND_SPACING} s *)")
     out.append(f"Definition p_keepalive : Z := {micros(P.KEEP_ALIVE_INTERVAL)}.  (* KEEP_ALIVE_INTERVAL = {P.KEEP_ALIVE_INTERVAL} s *)")
